@@ -302,6 +302,47 @@ func (c *funcCtx) privateRoot(e ast.Expr) bool {
 	}
 }
 
+// privatePtr: a pointer variable only ever bound to fresh allocations.
+func (c *funcCtx) privatePtr(e ast.Expr) bool {
+	for {
+		if p, ok := e.(*ast.ParenExpr); ok {
+			e = p.X
+			continue
+		}
+		break
+	}
+	if u, ok := e.(*ast.UnaryExpr); ok && u.Op == token.AND {
+		return c.privateRoot(u.X)
+	}
+	id, ok := e.(*ast.Ident)
+	return ok && c.fresh[c.pi.info.ObjectOf(id)]
+}
+
+// wholeStruct records an access to every field of n (nested struct values included).
+func (c *funcCtx) wholeStruct(n *types.Named, write bool, depth int) {
+	s, ok := n.Underlying().(*types.Struct)
+	if !ok || depth > 6 {
+		return
+	}
+	for i := 0; i < s.NumFields(); i++ {
+		f := s.Field(i)
+		if _, isFunc := f.Type().Underlying().(*types.Signature); isFunc {
+			continue
+		}
+		l := typeLabel(n) + "." + f.Name()
+		if write {
+			c.acc.w[l] = true
+		} else {
+			c.acc.r[l] = true
+		}
+		if fn, ok := f.Type().(*types.Named); ok {
+			if _, isStruct := fn.Underlying().(*types.Struct); isStruct {
+				c.wholeStruct(fn, write, depth+1)
+			}
+		}
+	}
+}
+
 func (c *funcCtx) read(e ast.Expr)  { c.touch(e, false) }
 func (c *funcCtx) write(e ast.Expr) { c.touch(e, true) }
 
@@ -335,6 +376,14 @@ func (c *funcCtx) touch(e ast.Expr, write bool) {
 			}
 		}
 	case *ast.StarExpr:
+		// *p used as a value (struct copy) or stored to as a whole: every field of the pointed-to struct
+		if tv, ok := c.pi.info.Types[x]; ok && tv.IsValue() && !c.privatePtr(x.X) {
+			if n, _ := namedStruct(tv.Type); n != nil {
+				if _, isPtr := tv.Type.Underlying().(*types.Pointer); !isPtr {
+					c.wholeStruct(n, write, 0)
+				}
+			}
+		}
 		c.touch(x.X, false)
 	default:
 		c.expr(e)
@@ -807,12 +856,80 @@ func (lo *lockOps) walkModes(list []ast.Stmt, mode int, emit func(s ast.Stmt, mo
 			if t {
 				return mode, true
 			}
-		case *ast.ForStmt, *ast.RangeStmt, *ast.SwitchStmt, *ast.TypeSwitchStmt, *ast.SelectStmt:
-			if lo.containsLockOp(s) {
-				// lock operations inside loops/switches: attribute the whole statement to the weakest mode
-				emit(s, mNone)
-			} else {
+		case *ast.SwitchStmt, *ast.TypeSwitchStmt, *ast.SelectStmt:
+			if !lo.containsLockOp(s) {
 				emit(s, mode)
+				continue
+			}
+			// lock operations inside the clauses: each clause is walked from the current mode
+			var body *ast.BlockStmt
+			switch sw := x.(type) {
+			case *ast.SwitchStmt:
+				body = sw.Body
+				if sw.Init != nil {
+					emit(sw.Init, mode)
+				}
+				if sw.Tag != nil {
+					emit(&ast.ExprStmt{X: sw.Tag}, mode)
+				}
+			case *ast.TypeSwitchStmt:
+				body = sw.Body
+				emit(sw.Assign, mode)
+			case *ast.SelectStmt:
+				body = sw.Body
+			}
+			end, allTerm := mode, true
+			for _, cl := range body.List {
+				var list []ast.Stmt
+				switch c := cl.(type) {
+				case *ast.CaseClause:
+					for _, e := range c.List {
+						emit(&ast.ExprStmt{X: e}, mode)
+					}
+					list = c.Body
+				case *ast.CommClause:
+					if c.Comm != nil {
+						emit(c.Comm, mode)
+					}
+					list = c.Body
+				}
+				m, term := lo.walkModes(list, mode, emit)
+				if !term {
+					allTerm = false
+					if m < end {
+						end = m
+					}
+				}
+			}
+			_ = allTerm
+			mode = end
+		case *ast.ForStmt, *ast.RangeStmt:
+			if !lo.containsLockOp(s) {
+				emit(s, mode)
+				continue
+			}
+			var body *ast.BlockStmt
+			if f, ok := x.(*ast.ForStmt); ok {
+				body = f.Body
+				if f.Init != nil {
+					emit(f.Init, mode)
+				}
+				if f.Cond != nil {
+					emit(&ast.ExprStmt{X: f.Cond}, mode)
+				}
+				if f.Post != nil {
+					emit(f.Post, mode)
+				}
+			} else {
+				r := x.(*ast.RangeStmt)
+				body = r.Body
+				emit(&ast.ExprStmt{X: r.X}, mode)
+			}
+			if m, _ := lo.walkModes(body.List, mode, func(ast.Stmt, int) {}); m == mode {
+				lo.walkModes(body.List, mode, emit) // balanced inside the body
+			} else {
+				emit(body, mNone) // a lock taken or dropped across iterations: weakest mode
+				mode = mNone
 			}
 		default:
 			emit(s, mode)
@@ -1293,14 +1410,26 @@ type DeepReturn struct {
 	Pos           string
 }
 
+// entryName: method name, qualified by the receiver type when it is not the target.
+func entryName(fn *types.Func, target *types.TypeName) string {
+	if recv := fn.Type().(*types.Signature).Recv(); recv != nil {
+		if n, _ := namedStruct(recv.Type()); n != nil && n.Obj() != target {
+			return n.Obj().Name() + "." + fn.Name()
+		}
+		return fn.Name()
+	}
+	return "func." + fn.Name()
+}
+
 type Translation struct {
-	Deep    []DeepReturn
-	Parts   []*Part
-	Locs    []string       // index = location id
-	LocID   map[string]int `json:"-"`
-	Groups  []string
-	Unknown map[string]map[string]int
-	Methods map[string]int // exported methods per group
+	ExtraEntries []string
+	Deep         []DeepReturn
+	Parts        []*Part
+	Locs         []string       // index = location id
+	LocID        map[string]int `json:"-"`
+	Groups       []string
+	Unknown      map[string]map[string]int
+	Methods      map[string]int // exported methods per group
 }
 
 func translate(repo string) (*Translation, error) {
@@ -1364,11 +1493,36 @@ func translate(repo string) (*Translation, error) {
 			}
 			fns = append(fns, fn)
 		}
-		sort.Slice(fns, func(i, j int) bool { return fns[i].Pos() < fns[j].Pos() })
 		if len(fns) == 0 {
 			return nil, fmt.Errorf("%s.%s has no exported methods", tg.Pkg, tg.Type)
 		}
 		tr.Methods[tg.Type] = len(fns)
+		// ... plus every other function of the package that itself acquires the target's lock
+		// (methods of checkpoint/helper types, unexported entry points): its author relies on
+		// the same discipline.
+		isEntry := map[*types.Func]bool{}
+		for _, fn := range fns {
+			isEntry[fn] = true
+		}
+		for fn, fd := range pi.decls {
+			if isEntry[fn] {
+				continue
+			}
+			direct := false
+			ast.Inspect(fd.Body, func(n ast.Node) bool {
+				if call, ok := n.(*ast.CallExpr); ok {
+					if op := lo.lockOp(call); op == "Lock" || op == "RLock" {
+						direct = true
+					}
+				}
+				return !direct
+			})
+			if direct {
+				fns = append(fns, fn)
+				tr.ExtraEntries = append(tr.ExtraEntries, tg.Type+":"+entryName(fn, tn))
+			}
+		}
+		sort.Slice(fns, func(i, j int) bool { return fns[i].Pos() < fns[j].Pos() })
 		for _, fn := range fns {
 			fd := pi.decls[fn]
 			byMode := [3]*accSet{newAcc(), newAcc(), newAcc()}
@@ -1391,9 +1545,13 @@ func translate(repo string) (*Translation, error) {
 				if mode == mNone {
 					kind = "unlocked"
 				}
-				tr.Parts = append(tr.Parts, &Part{Group: tg.Type, Method: fn.Name(), Kind: kind, Mode: mode, Reads: a.r, Writes: a.w, Pos: where})
+				tr.Parts = append(tr.Parts, &Part{Group: tg.Type, Method: entryName(fn, tn), Kind: kind, Mode: mode, Reads: a.r, Writes: a.w, Pos: where})
 			}
-			// escape part
+			// escape part (exported accessors of the target only: other lock-taking functions are
+			// summarised for their lock modes; what they hand out are back references by design)
+			if !isEntry[fn] {
+				continue
+			}
 			rets, _ := pi.returns(fd, false)
 			esc := map[string]bool{}
 			var what []string
@@ -1424,11 +1582,11 @@ func translate(repo string) (*Translation, error) {
 				what = append(what, fmt.Sprintf("result %d (%s) %s", r.idx, ts, []string{"refers to protected memory", "is a fresh value holding references to protected memory"}[r.level]))
 			}
 			if deep < lvInf {
-				tr.Deep = append(tr.Deep, DeepReturn{Group: tg.Type, Method: fn.Name(), Level: deep, Params: fn.Type().(*types.Signature).Params().Len(), Pos: where})
+				tr.Deep = append(tr.Deep, DeepReturn{Group: tg.Type, Method: entryName(fn, tn), Level: deep, Params: fn.Type().(*types.Signature).Params().Len(), Pos: where})
 			}
 			if len(esc) > 0 {
 				sort.Strings(what)
-				tr.Parts = append(tr.Parts, &Part{Group: tg.Type, Method: fn.Name(), Kind: "escape", Mode: mNone, Reads: esc, Writes: map[string]bool{}, Pos: where,
+				tr.Parts = append(tr.Parts, &Part{Group: tg.Type, Method: entryName(fn, tn), Kind: "escape", Mode: mNone, Reads: esc, Writes: map[string]bool{}, Pos: where,
 					Note: strings.Join(dedupe(what), "; ")})
 			}
 		}
